@@ -95,9 +95,10 @@ def _corr_shard(name, shard, nshards, tier, seed):
             if name == 'rewrite.add_ascending':
                 if not any(st['k'] == 'add' for st in op['steps']):
                     continue
-                for st in op['steps']:
-                    if st['k'] == 'add':
-                        st['with_orders'] = False
+                # the history ends with its first `add` (with another iteration order the ids used by later steps differ)
+                first = [i for i, st in enumerate(op['steps']) if st['k'] == 'add'][0]
+                op['steps'] = op['steps'][:first + 1]
+                op['steps'][first]['with_orders'] = False
                 metas.append({'cls': cls_hist, 'cmp_keys': cmp_keys_asc, 'branches': ['charged' if charged else 'uncharged']})
             else:
                 metas.append({'cls': cls_hist, 'branches': ['charged' if charged else 'uncharged', f'L={L}']})
@@ -210,7 +211,7 @@ def oracle_history(raw, steps):
             return f'step {idx} ({k}): graph denotes {got}, expected {want}'
         if not g.is_consistent():
             return f'step {idx} ({k}): graph is not consistent afterwards'
-        if k in ('simplify', 'simplify_step', 'add') and k != 'add' and (len(g.nodes) > nn or len(g.edges) > ne):
+        if k in ('simplify', 'simplify_step') and (len(g.nodes) > nn or len(g.edges) > ne):
             return f'step {idx} ({k}): number of nodes/edges increased'
         if k == 'add' and oglib.ser_graph(other) != other_snap:
             return f'step {idx} (add): the other graph was modified'
